@@ -23,5 +23,6 @@ ac98dfc C05
 5abfb23 C04 C17
 a7c7271 C17
 9ee7485 C14
+790a4df C14
 LIST
 git status --short | head -3
